@@ -335,4 +335,62 @@ def rule_rows_are_numbered_physically(ctx):
     protocol.reader_rows_table(ctx, "O5.6", {"lines"}, "Reader.rows")
 
 
-RULES = [rule_is_unique, rule_distinct_count, rule_reset_restores_fresh_state, rule_only_accepted_rows, rule_reset_completeness, rule_same_data_set_only, rule_rows_are_numbered_physically, rule_module_state]
+def rule_rejected_rows_leave_no_key(ctx):
+    """
+    O5.7: "rejected if and only if an earlier ACCEPTED row of the same data set has the same values": a row that an
+    IsUnique check let pass but a LATER-declared check rejected was not accepted, so its key must not make a following row
+    a duplicate.  validate_row is interpreted with two real IsUnique checks (on f0 and on f1) over rows of equality atoms.
+    """
+    from ..tablekit import decide_kinds
+    from .protocol import VALIDATOR, _construct
+
+    model = ctx.model
+    ctx.res.minimum("O5.7", 1)
+
+    def cell(ch):
+        interp = Interp(model, ch, externals={"composed_text_eq": _composed_text_eq(ch)})
+        world = World(model, interp, ch)
+        checks = []
+        for name, field in (("unique f0", "f0"), ("unique f1", "f1")):
+            check = Obj(model.cls(IS_UNIQUE), {"_field_names_to_check": [field], "_description": name, "_row_key_to_location_map": None,
+                                               "_location": None}, label=name)
+            interp.call_function(model.func(IS_UNIQUE + ".reset"), [check], {}, None)
+            checks.append(check)
+        fields = [world.recording_field(0, outcomes=("ok",)), world.recording_field(1, outcomes=("ok",))]
+        cid = world.cid(fields, checks, world.data_format())
+        validator = _construct(interp, VALIDATOR, [cid])
+        location = world.location(line=0)
+        validator.attrs["_location"] = location
+        world.current_location = location
+        n_rows = ch.choose("rows", [2, 3])
+        letters = []
+        accepted_keys = ({}, {})
+        problems = []
+        for index in range(n_rows):
+            pair = (ch.choose(("f0", index), ["a", "b"]), ch.choose(("f1", index), ["x", "y"]))
+            letters.append("".join(pair))
+            row = [Atom("f0@%d" % index, "f0=" + pair[0]), Atom("f1@%d" % index, "f1=" + pair[1])]
+            location.attrs["_line"] = index
+            try:
+                interp.call_function(model.func(VALIDATOR + ".validate_row"), [validator, row], {}, None)
+                outcome = "accepted"
+            except AbsRaise as raised:
+                outcome = "rejected (%s)" % exc_name(raised.value)
+            duplicate = pair[0] in accepted_keys[0] or pair[1] in accepted_keys[1]
+            if duplicate and outcome == "accepted":
+                problems.append("row %d repeats a key of an accepted row but was accepted" % index)
+            if not duplicate:
+                if outcome != "accepted":
+                    problems.append("row %d (%s) shares no key with an ACCEPTED earlier row but was %s" % (index, letters[-1], outcome))
+                else:
+                    accepted_keys[0][pair[0]] = index
+                    accepted_keys[1][pair[1]] = index
+        key = "rows=[%s]" % " ".join(letters)
+        if problems:
+            return (key, "a row rejected by a later check leaves its key in an earlier IsUnique check", problems[0])
+        return (key, None, None)
+
+    decide_kinds(ctx, "O5.7", "validate_row(two IsUnique checks)", VALIDATOR + ".validate_row", cell, min_cells=20)
+
+
+RULES = [rule_is_unique, rule_distinct_count, rule_reset_restores_fresh_state, rule_only_accepted_rows, rule_reset_completeness, rule_same_data_set_only, rule_rows_are_numbered_physically, rule_rejected_rows_leave_no_key, rule_module_state]
